@@ -98,12 +98,15 @@ def writer_shape(fw, frame=True):
 
 
 def reader_shape(fr):
-    """'per-element': header words, width word, count word, ONE loop with a 0,1,2,.. counter whose reads have constant
-    sizes and whose stores are directly addressed, footer words - and no other read; else None"""
-    if len(fr["loops"]) == 1 and counter_iv(fr) is not None and fr["loop"] and all(c.args[2][0] == 'ci' for c in fr["loop"]) \
-            and all(dyn_parts(st.off)[0] is not None for st in fr["stores"]) \
+    """'per-element': header words, width word, count word, then for each on-disk width either ONE loop with a 0,1,2,..
+    counter whose reads have constant sizes and whose stores are directly addressed, or one bulk read of a run-time number of
+    bytes (decided per width by reader_branches), then the footer words - and no other read; else None"""
+    loop_ok = len(fr["loops"]) == 1 and counter_iv(fr) is not None and fr["loop"] and all(c.args[2][0] == 'ci' for c in fr["loop"]) \
+        and all(dyn_parts(st.off)[0] is not None for st in fr["stores"])
+    no_loop = not fr["loops"] and not fr["loop"]
+    if (loop_ok or (no_loop and fr["bulk"])) and len(fr["bulk"]) <= 2 \
             and fr["prefix_ok"] and all(c.args[2][0] == 'ci' for c in fr["post"]) and sum(c.args[2][1] for c in fr["post"]) == 8 \
-            and len(fr["pre"]) + len(fr["post"]) + len(fr["loop"]) == fr["nreads"]:
+            and len(fr["pre"]) + len(fr["post"]) + len(fr["loop"]) + len(fr["bulk"]) == fr["nreads"]:
         return "per-element"
     return None
 
@@ -228,9 +231,13 @@ def analyse_reader(h):
     f = {"sym": s, "loops": s.loops}
     rs = [c for c in s.calls if c.name == io.READ]
     loop = [c for c in rs if s.in_loop(c.block)]
-    first_loop = min([c.n for c in loop]) if loop else 10 ** 9
+    bulk = [c for c in rs if not s.in_loop(c.block) and c.args[2][0] != 'ci']          # one read of a run-time number of bytes
+    payload = loop + bulk
+    first_loop = min([c.n for c in payload]) if payload else 10 ** 9
+    last_payload = max([c.n for c in payload]) if payload else -1
     f["nreads"] = len(rs)
-    f["pre"] = [c for c in rs if not s.in_loop(c.block) and c.n < first_loop]
+    f["bulk"] = bulk
+    f["pre"] = [c for c in rs if c not in payload and c.n < first_loop]
     # the prefix by stream offset: bytes 0..8 header words (read in any number of calls), 8..12 width word, 12..20 count word
     off, f["width_call"], f["count_call"], f["prefix_ok"] = 0, None, None, True
     for c in f["pre"]:
@@ -244,7 +251,7 @@ def analyse_reader(h):
         off += c.args[2][1]
     f["prefix_ok"] = f["prefix_ok"] and off == 20 and f["width_call"] is not None and f["count_call"] is not None
     f["loop"] = loop
-    f["post"] = [c for c in rs if not s.in_loop(c.block) and c.n > first_loop]
+    f["post"] = [c for c in rs if c not in payload and c.n > last_payload]
     f["news"] = [c for c in s.calls if c.name in ("_Znam",) and ir.atoms(c.args[0] if c.args else ('ci', 0, 64)) & {a for a in ir.atoms(c.args[0]) if a[0] == 'wr'}] if True else []
     f["stores"] = [st for st in s.stores if st.block is not None and s.in_loop(st.block) and st.base[0] == 'ret']
     f["outs"] = {st.off: st for st in s.stores if st.base == ('arg', 1) and isinstance(st.off, int)}
@@ -475,7 +482,8 @@ def reader_branches(hr, fr):
                     inner = ('wr', src_reads[0].n, 1, 0, st.size, 'blk')
             entries.append({"const": const, "terms": terms, "conv": conv, "src": inner, "size": st.size, "store": st, "lits": ir.common_lits(cw)})
         latch = [ir.common_lits(under(c, truth)) for c in getattr(fr["sym"], "latch_cond", {}).values()]
-        out[width] = {"reads": reads, "stores": entries, "latch": latch}
+        bulk = [c for c in fr["bulk"] if not dead(under(c.cond, truth))]
+        out[width] = {"reads": reads, "stores": entries, "latch": latch, "bulk": bulk}
     return out, None
 
 
@@ -495,12 +503,32 @@ def check_reader(rep, rid, hr, fr):
     if why is None:
         if sum(c.args[2][1] for c in fr["post"]) != 8:
             why = "payload is not followed by the two footer words"
-    if why is None:
+    if why is None and fr["loops"]:
         cnt = fr["count_call"].n
         why = loop_shape(fr, lambda t: io.norm_rd(t)[:5] == ('wr', cnt, 1, 0, 8))
     if why is None:
         for width in (4, 8):
             b = br[width]
+            if b["bulk"]:
+                # the whole payload in one stream read: only sound when nothing has to be converted, it must fill exactly the
+                # buffer (count * M * sizeof(scalar) bytes from its beginning), and no element loop runs for this width
+                cnt_atom = ('wr', fr["count_call"].n, 1, 0, 8, 'i64')
+                rd = b["bulk"][0]
+                want = ir.Poly.const(M * sz, 1 << 64) * ir.Poly.atom(cnt_atom, 1 << 64)
+                got = ir.to_poly(rd.args[2], 'int', width=64, atomize=lambda t: cnt_atom if io.norm_rd(t)[:5] == cnt_atom[:5] else None)
+                dst = rd.args[1]
+                if len(b["bulk"]) != 1 or b["reads"]:
+                    why = "width %d: the payload is read both in bulk and element by element" % width
+                elif width != sz:
+                    why = "width %d: the payload is read in bulk into a buffer of %d-byte scalars: no conversion takes place" % (width, sz)
+                elif not (dst[0] == 'ptr' and dst[1][0] == 'ret' and dst[2] == 0 and any(n_.n == dst[1][1] for n_ in fr["news"])):
+                    why = "width %d: the bulk read does not target the beginning of the freshly allocated buffer (%s)" % (width, ir.show(dst)[:60])
+                elif got != want:
+                    why = "width %d: the bulk read transfers %s bytes, the buffer holds count*%d" % (width, got.show()[:80], M * sz)
+                if why:
+                    break
+                b["stores"] = [{"conv": "none"}] * M
+                continue
             sizes = [c.args[2][1] for c in b["reads"]]
             if sum(sizes) != width * M:
                 why = "for on-disk width %d an iteration reads %s bytes, expected %d bytes (%d scalars of %d)" % (width, sizes, width * M, M, width)
@@ -717,6 +745,19 @@ def run_c08(rep, tier):
                 if not any(ir.occurs_positive(x, ir.mk_not(lit)) for x in tc) or fr["asserts"]:
                     why = "no throw is taken exactly when the state test after read #%d fails" % k
                     break
+            for c in (fr["bulk"] if why is None else []):
+                # a bulk payload read outside any loop: its state test must guard the footer reads and the normal return
+                k = c.n
+                mylits = sorted(ir.common_lits(c.cond), key=lambda l: len(repr(l)))
+                later = [prune(assume(x, mylits)) for x in [r.cond for r in fr["post"]] + [rc for rc, _ in sym.ret_cond]]
+                later = [x for x in later if not dead(x)]
+                lit = next((l for x in later for l in ir.common_lits(x) if io.state_ok_epoch(l, 0) == k + 1), None)
+                if lit is None or not all(lit in ir.common_lits(x) for x in later):
+                    why = "the bulk read #%d of the payload is not followed by a stream-state test that guards the footer reads and the normal return" % k
+                    break
+                if not any(ir.occurs_positive(x, ir.mk_not(lit)) for x in tc):
+                    why = "no throw is taken when the state test after the bulk read #%d fails" % k
+                    break
             if why is None and not fr["loop"] and fr["loops"]:
                 why = "no read inside the element loop"
             if why is None and reader_shape(fr) is None:
@@ -727,6 +768,8 @@ def run_c08(rep, tier):
                 why = err
             for width in ((4, 8) if why is None else ()):
                 b = br[width]
+                if b.get("bulk"):
+                    continue        # decided above (state test after the bulk read)
                 if not b["reads"]:
                     why = "for on-disk width %d the loop reads nothing: it can go round without a checked read" % width
             # allocation size from checked count
